@@ -284,8 +284,13 @@ def cache_rules(cx, repo, add, rule_b="R14e", rule_d="R14e"):
     add, _inl = inlined(repo.mod(REL), add, nested=True, tests=True)
     # reset of _cache dominated store loop
     store_loop = next((l for l in add.body if isinstance(l, ast.For) and any(isinstance(n, ast.Subscript) and isinstance(n.ctx, ast.Store) and norm(n.value) == "self.syntax_map" for n in ast.walk(l))), None)
+    if store_loop is None:
+        # not at the top level of the function (nested under an `else` after an early return, say): found anywhere, and the
+        # placement of the reset is then decided on the flow graph only
+        store_loop = next((l for l in walk_local(add) if isinstance(l, ast.For) and any(isinstance(n, ast.Subscript) and isinstance(n.ctx, ast.Store) and norm(n.value) == "self.syntax_map"
+                                                                                        for n in ast.walk(l))), None)
     cx.need(store_loop is not None, rule_b, add, "loop storing new items")
-    idx = add.body.index(store_loop)
+    idx = add.body.index(store_loop) if store_loop in add.body else 0
     resets = []
     for s in add.body[:idx]:
         if isinstance(s, ast.Assign) and any(is_self_attr(t, "_cache") for t in s.targets) and isinstance(s.value, ast.Dict) and not s.value.keys:
@@ -412,7 +417,7 @@ def cache_rules(cx, repo, add, rule_b="R14e", rule_d="R14e"):
         from sa.guards import iter_source as _its
         _c, base_, _v = _its(store_loop)
         b_ = norm(base_)
-        pre = [s_ for s_ in add.body[:add.body.index(store_loop)] if isinstance(s_, ast.Assign) and is_name(s_.targets[0], "any_modifications")
+        pre = [s_ for s_ in add.body[:(add.body.index(store_loop) if store_loop in add.body else 0)] if isinstance(s_, ast.Assign) and is_name(s_.targets[0], "any_modifications")
                and norm(s_.value) in (f"bool({b_})", f"len({b_}) > 0", f"len({b_}) != 0")]
         in_store = bool(pre) and _c is not None
     # outside the store loop the flag must be raised when something got resolved: it is guarded by a variable that is updated
